@@ -157,3 +157,28 @@ func FireNext() bool {
 
 // Advance moves the clock forward without firing anything (harness only).
 func Advance(d time.Duration) { clk.mu.Lock(); clk.now = clk.now.Add(d); clk.mu.Unlock() }
+
+// FireDue advances the clock to the earliest live timer and fires every timer due at that
+// instant (so that the result does not depend on the order in which goroutines armed them).
+func FireDue() int {
+	clk.mu.Lock()
+	l := clk.live()
+	if len(l) == 0 {
+		clk.mu.Unlock()
+		return 0
+	}
+	at := l[0].at
+	clk.mu.Unlock()
+	n := 0
+	for {
+		clk.mu.Lock()
+		l = clk.live()
+		if len(l) == 0 || l[0].at.After(at) {
+			clk.mu.Unlock()
+			return n
+		}
+		clk.mu.Unlock()
+		FireNext()
+		n++
+	}
+}
